@@ -38,6 +38,7 @@ def walk(v, fn, seen=None):
     elif isinstance(v, BoxV):
         walk(v.cell[0], fn, seen)
     elif isinstance(v, SynTokens):
+        fn(v)
         if v.metas is not None:
             for m in v.metas:
                 walk(m, fn, seen)
@@ -49,6 +50,9 @@ def plant(v, mapping):
     """replace the text of identifiers / string literals that equal a placeholder by the given char list.
     mapping: placeholder text -> list of chars (ints or z3 terms)"""
     def fn(node):
+        if isinstance(node, SynTokens):
+            node.mapping = dict(node.mapping or {}, **mapping)
+            return
         s = node.s
         if all(isinstance(c, int) for c in s.chars):
             key = "".join(chr(c) for c in s.chars)
